@@ -235,6 +235,12 @@ HAND = [
     # 18, 19 partials that define blocks / extend a base, rendered in an isolated scope
     "{{ d.a }}{% render 'base' %}|{% render 'mid' %}{{ d.b }}",
     "{% for i in (1..2) %}{% render 'mid' %}{% endfor %}{% include 'base' %}",
+    # 20 which macro a call site reaches depends on the data of this render
+    "{% if d.a > 3 %}{% macro mm a, b: 'B' %}[{{ a }}|{{ b }}|{{ args }}]{% endmacro %}{% else %}"
+    "{% macro mm b, a: 'A' %}({{ a }}|{{ b }}|{{ args }}){% endmacro %}{% endif %}[[mac:{% call mm d.a, d.b %}]]{% call mm %}",
+    # 21 ... or on the iteration
+    "{% for i in (1..3) %}{% if i == 2 %}{% macro mm b, a: 'A' %}({{ a }}|{{ b }}){% endmacro %}{% else %}"
+    "{% macro mm a, b: 'B' %}[{{ a }}|{{ b }}]{% endmacro %}{% endif %}{% call mm i, d.a %}{% endfor %}",
 ]
 PROCESS_PROBES = (18, 19, 4, 5, 9, 17)  # (the ones that only read first, the ones that might leave something behind last) rendered on brand-new objects before and after every history
 HAND_DATE_NOW = {8}
